@@ -496,9 +496,12 @@ fn gen_case(rng: &mut Rng, complex: bool, clamped: bool, n: usize, mode: DataMod
         }
     };
     // the zero tolerance of the piece polynomials: any non-negative number is admissible
+    // (coarse values too: the tolerance concerns the piece polynomials' zero test, not the spline;
+    // with ordinates down to 1e-2 x scale the monomial coefficients of a piece are then below it)
     let tol = match rng.below(12) {
         0 => 0.0,
         1 => 1e-300,
+        2 => rng.log10(-3.0, 1.0),
         _ => rng.log10(-14.0, -6.0),
     };
     Case { clamped, xs, ys, slopes, tol, mode, q }
